@@ -518,8 +518,10 @@ def finish(ctx, cfg):
         "coverage": cov, "assumptions": cfg.get("assumptions", []),
         "wall_s": round(time.time() - ctx.t0, 2), "violations": len(violations),
     }
-    os.makedirs(os.path.join(VERIF, "evidence"), exist_ok=True)
-    with open(os.path.join(VERIF, "evidence", ctx.prop + ".json"), "w") as fh:
+    # evidence describes /repo itself: a run against another tree (mutant qualification) leaves it alone
+    evdir = os.path.join(VERIF, "evidence") if os.path.realpath(REPO) == "/repo" else os.path.join(VERIF, "replays", "evidence-other-tree")
+    os.makedirs(evdir, exist_ok=True)
+    with open(os.path.join(evdir, ctx.prop + ".json"), "w") as fh:
         json.dump(ev, fh, indent=1)
     for v in violations:
         log(v)
